@@ -58,7 +58,5 @@ From UV Require Import File.Builder File.BuilderProofs File.BuilderProofs3 File.
 Theorem C20_reference_trickle_read_order : forall (W : nat) (chunks : list bytes), (1 <= W)%nat -> chunks <> [] -> Forall nonempty chunks -> (blen (concat chunks) < bound63)%N ->
   let b := fst (trickle_layout W chunks) in
   sloads (stream nofault b 0) = tl (preorder b).
-Proof.
-  intros W chunks HW Hne Hs Hb b. destruct (trickle_qualifies W chunks HW Hne Hs Hb) as [H1 H2]. exact (read_order b H1 H2).
-Qed.
+Proof. exact trickle_read_order. Qed.
 Print Assumptions C20_reference_trickle_read_order.
